@@ -128,6 +128,20 @@ def judge(case, rec):
         rec.violation("population_fraction = %r; cascade over %r gives %r" % (
             got_frac, q["extras"], frac), "fraction")
         return
+    # --- the same response OBJECT used for a second cube (and a cube set) after the
+    # --- fraction was read from the first: the filter statistics must still be there
+    shared = copy.deepcopy(resp)
+    first = lib.Cube(shared, transforms=copy.deepcopy(case["transforms"]), population=pop)
+    f1 = first.population_fraction
+    second = lib.Cube(shared, transforms=copy.deepcopy(case["transforms"]), population=pop)
+    f2 = second.population_fraction
+    f3 = lib.CubeSet([shared], [copy.deepcopy(case["transforms"])], pop, 0).population_fraction
+    rec.compared()
+    if not (close(f1, frac) and close(f2, frac) and close(f3, frac)):
+        rec.violation("population_fraction of a first / second cube / cube set built from the "
+                      "same response object = %r / %r / %r; cascade gives %r" % (
+                          f1, f2, f3, frac), "fraction-reuse")
+        return
     dates = [d.var.get("flavour") == "cat_date" for d in dims]
     if (not math.isnan(frac) and frac != 1.0) or any(dates):
         rec.nontrivial()
